@@ -42,7 +42,8 @@ var explicitTypes = []string{"uint0", "uint7", "uint8", "uint256", "uint264", "u
 	"fixed0x1", "fixed8x0", "fixed8x81", "fixed264x1", "fixed7x1", "fixed8x", "fixedx8", "fixed8", "fixed08x1", "fixed8x01", "fixed8x1x1", "fixed128x18", "ufixed", "ufixed128x018", "fixed8X1",
 	"address8", "address ", "bool1", "function24", "string1", "string[]", "tuple", "tuple8", "tuple[]", "tuple[2][]", "tuple8[]", "tuplex", "tuples",
 	"uint256[", "uint256]", "uint256[]]", "uint256[[]", "uint256[-1]", "uint256[+1]", "uint256[4294967296]", "uint256[99999999999999999999999]", "uint256[abc]", "uint256[1 ]", "uint256[ ]", "uint256[]x", "uint256[][", "uint256[1][2][3][]",
-	"uint256[0x10]", "uint256[1_0]", "", "[", "[]", "256", "x", "unknown", "ui", "uinté8", "uint８", "uint²", "tüple", "uint256[١]", "\x00", "uint256\n"}
+	"uint256[0x10]", "uint256[1_0]", "uint65544", "int65792", "uint4294967304", "uint18446744073709551624", "bytes65537", "bytes65568", "bytes4294967297", "fixed128x65554", "ufixed65664x18", "fixed4294967424x18",
+	"uint256[4294967297]", "uint256[18446744073709551617]", "", "[", "[]", "256", "x", "unknown", "ui", "uinté8", "uint８", "uint²", "tüple", "uint256[١]", "\x00", "uint256\n"}
 
 func init() {
 	register(&Suite{
@@ -113,6 +114,48 @@ func init() {
 				p["type"] = string(t)
 				c.Add(map[string]any{"op": "abi.validate", "param": p}, tag)
 			}
+			// histories: a definition is validated, one type string somewhere in its tree is changed in place, and it is
+			// validated again — the second verdict must be the verdict on the definition as it now stands
+			nh := n / 3
+			for i := 0; i < nh; i++ {
+				before := genValidParam(r, 3)
+				if r.Intn(3) > 0 {
+					comps := []any{}
+					for k := 1 + r.Intn(3); k > 0; k-- {
+						comps = append(comps, genValidParam(r, 2))
+					}
+					before = map[string]any{"name": "top", "type": "tuple" + Pick(r, arraySuffixes), "components": comps}
+				}
+				// path to a node
+				var pathIdx []any
+				node := before
+				for {
+					cs, _ := node["components"].([]any)
+					if len(cs) == 0 || !strings.HasPrefix(node["type"].(string), "tuple") || r.Intn(3) == 0 {
+						break
+					}
+					k := r.Intn(len(cs))
+					pathIdx = append(pathIdx, k)
+					node = cs[k].(map[string]any)
+				}
+				newType := Pick(r, []string{Pick(r, elemSeeds) + Pick(r, arraySuffixes), Pick(r, elemSeeds) + Pick(r, arraySuffixes), Pick(r, explicitTypes), "uint257", "lobster", "bytes32["})
+				if strings.HasPrefix(node["type"].(string), "tuple") && r.Bool() {
+					newType = "tuple" + Pick(r, arraySuffixes)
+				}
+				// the definition as it stands after the change (deep copy through JSON)
+				var after map[string]any
+				bb, _ := json.Marshal(before)
+				_ = json.Unmarshal(bb, &after)
+				an := after
+				for _, k := range pathIdx {
+					an = an["components"].([]any)[k.(int)].(map[string]any)
+				}
+				an["type"] = newType
+				if pathIdx == nil {
+					pathIdx = []any{}
+				}
+				c.Add(map[string]any{"op": "abi.validate", "param": after, "history": map[string]any{"before": before, "path": pathIdx, "newType": newType}}, "history.revalidate")
+			}
 			// arbitrary strings over the alphabet up to length 24, and arbitrary unicode
 			for i := 0; i < n*2; i++ {
 				l := 1 + r.Intn(24)
@@ -129,6 +172,35 @@ func init() {
 			}
 		},
 		Impl: func(req map[string]any) any {
+			if h, has := req["history"].(map[string]any); has {
+				p := paramFromJSON(h["before"])
+				a := abi.ABI{&abi.Entry{Type: abi.Function, Name: "f", Inputs: abi.ParameterArray{p}}}
+				_ = a.Validate()
+				_, _ = p.TypeComponentTreeCtx(context.Background())
+				node := p
+				for _, k := range h["path"].([]any) {
+					idx := 0
+					switch t := k.(type) {
+					case int:
+						idx = t
+					case json.Number:
+						n, _ := t.Int64()
+						idx = int(n)
+					case float64:
+						idx = int(t)
+					}
+					node = node.Components[idx]
+				}
+				node.Type = str(h, "newType")
+				if verr := a.Validate(); verr != nil {
+					return "err"
+				}
+				tc, err := p.TypeComponentTreeCtx(context.Background())
+				if err != nil {
+					return "validate-disagrees"
+				}
+				return ok(tc.String())
+			}
 			p := paramFromJSON(req["param"])
 			tc, err := p.TypeComponentTreeCtx(context.Background())
 			if err != nil {
